@@ -299,12 +299,53 @@ def check_pair(res, kind, c1, c2, rep, want_state=True):
     return impl
 
 
+def shrink_pair(res, drv, n_before, kind, c1, c2, want_state):
+    """minimise the pair of the violation just recorded (same key), unless it is a known finding"""
+    if len(res.violations) <= n_before or getattr(res, "_shrunk", 0) >= 4:
+        return
+    key = res.violations[n_before]["key"]
+    if key in (K_WIRE, K_IDENT):
+        return
+    res._shrunk = getattr(res, "_shrunk", 0) + 1
+
+    def fails_with(a_ops, b_ops):
+        a, b = (c1[0], c1[1], c1[2], a_ops), (c2[0], c2[1], c2[2], b_ops)
+        r = Result()
+        try:
+            check_pair(r, kind, a, b, drv.ask(f"c15.cmp a={enc(a)} b={enc(b)}"), want_state)
+        except Exception:  # noqa: BLE001
+            return False
+        return any(v["key"] == key for v in r.violations)
+
+    a_ops, b_ops = list(c1[3]), list(c2[3])
+    # first try to drop the same position from both (the second circuit is usually a variation of the first)
+    if len(a_ops) == len(b_ops):
+        i = len(a_ops) - 1
+        while i >= 0:
+            ca, cb = a_ops[:i] + a_ops[i + 1:], b_ops[:i] + b_ops[i + 1:]
+            if fails_with(ca, cb):
+                a_ops, b_ops = ca, cb
+            i -= 1
+    a_ops = cu.shrink_list(a_ops, lambda cand: fails_with(cand, b_ops), budget=60)
+    b_ops = cu.shrink_list(b_ops, lambda cand: fails_with(a_ops, cand), budget=60)
+    if len(a_ops) + len(b_ops) < len(c1[3]) + len(c2[3]):
+        a, b = (c1[0], c1[1], c1[2], a_ops), (c2[0], c2[1], c2[2], b_ops)
+        r = Result()
+        check_pair(r, kind, a, b, drv.ask(f"c15.cmp a={enc(a)} b={enc(b)}"), want_state)
+        hit = [v for v in r.violations if v["key"] == key]
+        if hit:
+            hit[0]["shrunk_from"] = {"a": enc(c1)[:400], "b": enc(c2)[:400]}
+            res.violations[n_before] = hit[0]
+
+
 def run_pairs(res, drv, pairs, want_state=True):
     lines = [f"c15.cmp a={enc(c1)} b={enc(c2)}" for _, c1, c2 in pairs] + [f"c15.cmp a={enc(c2)} b={enc(c1)}" for _, c1, c2 in pairs]
     reps = drv.batch(lines)
     n = len(pairs)
     for i, (kind, c1, c2) in enumerate(pairs):
+        n_before = len(res.violations)
         r12 = check_pair(res, kind, c1, c2, reps[i], want_state)
+        shrink_pair(res, drv, n_before, kind, c1, c2, want_state)
         # symmetry (on the implementation)
         ca, cb = build(c1), build(c2)
         r21 = impl_results(cb, ca)
@@ -435,7 +476,10 @@ def run_filters(res, drv, rng, n_lists):
                     ok = True
                     break
             if not ok:
-                res.violation(K_WIRE, "remove_redundant_circuits dropped a circuit that is inequivalent (under every renaming) to every circuit kept",
+                # the known finding only covers what the matcher *as coded* (= the model) does
+                coded = rep["_status"] == "ok" and ([] if rep["kept"] == "-" else [int(x) for x in rep["kept"].split(".")]) == kept_idx
+                res.violation(K_WIRE if coded else "remove_redundant:discarded-inequivalent",
+                              "remove_redundant_circuits dropped a circuit that is inequivalent (under every renaming) to every circuit kept",
                               input=inp, dropped=i, kept=str(kept_idx))
         # storage with the default (direct) check: a refused circuit equals a stored one exactly
         stored = [i for i, f in enumerate(flags_d) if f == "1"]
